@@ -286,6 +286,9 @@ def rootnode_solver(A, B=None, BH=None,
         levelize_strength_or_aggregation(aggregate, max_levels, max_coarse)
     max_levels, max_coarse, strength =\
         levelize_strength_or_aggregation(strength, max_levels, max_coarse)
+    # a predefined strength list may have raised max_levels: extend aggregate accordingly
+    max_levels, max_coarse, aggregate =\
+        levelize_strength_or_aggregation(aggregate, max_levels, max_coarse)
     improve_candidates =\
         levelize_smooth_or_improve_candidates(improve_candidates, max_levels)
     smooth = levelize_smooth_or_improve_candidates(smooth, max_levels)
